@@ -80,7 +80,9 @@ AddCmt ==
 AddCpp ==
   /\ "cpp" \in PKinds /\ (NeedStruct => HasStruct)
   /\ ~Shifting
-  /\ \E pos \in Ch(IF NeedStruct THEN Anchor ELSE 1..(N + 1)), f \in Ch(1..NCppForms) : ed' = Append(ed, E("cpp", pos, f, 0))
+  \* b > 0: a second directive line (form b) directly behind the first one, at the same boundary
+  /\ \E pos \in Ch(IF NeedStruct THEN Anchor ELSE 1..(N + 1)), f \in Ch(1..NCppForms) :
+       \E g \in (IF NeedStruct THEN {0} ELSE {0, 1 + ((f * 7) % NCppForms)}) : ed' = Append(ed, E("cpp", pos, f, g))
 
 AddGarb ==
   /\ "garb" \in PKinds /\ ~\E j \in 1..Len(ed) : ed[j].t = "garb"
@@ -208,8 +210,11 @@ Leaves(i) == IF i > N THEN [j \in 1..Len(EdsAt(N + 1, {1})) |-> <<"e", EdsAt(N +
 
 \* physical lines: every statement one line, plus one for a continuation break, plus inserted lines
 CppLines(f) == IF f \in {12, 13} THEN 2 ELSE 1          \* backslash-continued forms occupy two lines
-PreLines(i) == LET js == {j \in 1..Len(ed) : ed[j].pos = i /\ ((ed[j].t = "cmt" /\ ed[j].a = 1) \/ ed[j].t = "cpp")} IN
-               Cardinality(js) + Cardinality({j \in js : ed[j].t = "cpp" /\ CppLines(ed[j].a) = 2})
+LinesOf(j) == IF ed[j].t = "cmt" THEN 1 ELSE CppLines(ed[j].a) + (IF ed[j].b > 0 THEN CppLines(ed[j].b) ELSE 0)
+RECURSIVE SumLines(_, _)
+SumLines(i, j) == IF j = 0 THEN 0
+                  ELSE SumLines(i, j - 1) + (IF ed[j].pos = i /\ ((ed[j].t = "cmt" /\ ed[j].a = 1) \/ ed[j].t = "cpp") THEN LinesOf(j) ELSE 0)
+PreLines(i) == SumLines(i, Len(ed))
 StmtLines(i) == IF \E j \in 1..Len(ed) : ed[j].t = "cmt" /\ ed[j].pos = i /\ ed[j].a \in {3, 4} THEN 3
                 ELSE IF \E j \in 1..Len(ed) : ed[j].t = "cmt" /\ ed[j].pos = i /\ ed[j].a = 5 THEN 2
                 ELSE IF \E j \in 1..Len(ed) : ed[j].t = "brk" /\ ed[j].pos = i
